@@ -677,7 +677,7 @@ struct espace {
   char name[48];
   int ws, nframes, ncuts;
 };
-#define EF_N 9
+#define EF_N 11
 static size_t
 ws_frame(uint8_t *o, int opcode, const uint8_t *pl, size_t n, int lenform, int masked) {
   size_t k = 0;
@@ -719,7 +719,9 @@ eframe(int ws, int f, uint8_t *o) {
     case 5: return ws_frame(o, 9, csm, 2, 0, 1);   /* ping */
     case 6: return ws_frame(o, 2, big, 26, 0, 1);
     case 7: return ws_frame(o, 2, get_r, 1, 0, 1); /* shorter than a CoAP header */
-    default: return ws_frame(o, 2, get_r, 5, 0, 0); /* not masked */
+    case 8: return ws_frame(o, 2, get_r, 5, 0, 0); /* not masked */
+    case 9: { static const uint8_t rel[] = {0x01, 0xE4, 0x5A, 0x41, 0x05}; return ws_frame(o, 2, rel, 5, 0, 1); }  /* 7.04 Release with token + Hold-Off */
+    default: { static const uint8_t ab[] = {0x00, 0xE5, 0xFF, 'b', 'y', 'e'}; return ws_frame(o, 2, ab, 6, 0, 1); } /* 7.05 Abort with diagnostic payload */
     }
   }
   switch (f) {
@@ -733,7 +735,9 @@ eframe(int ws, int f, uint8_t *o) {
     o[0] = 0x2D; o[1] = 0x01; o[2] = 0x00; memset(o + 3, 0x55, 13); o[16] = 0xB1; o[17] = 'r'; return 18; }
   case 6: o[0] = 0xE0; o[1] = 0x00; o[2] = 0x00; o[3] = 0x01; return 4; /* Len 14-form announcing 269 bytes that never come */
   case 7: o[0] = 0x0F; o[1] = 0x01; return 2;   /* TKL 15 */
-  default: { static const uint8_t m[] = {0x11, 0x01, 0x79, 0xFF}; memcpy(o, m, 4); return 4; } /* marker without payload */
+  case 8: { static const uint8_t m[] = {0x11, 0x01, 0x79, 0xFF}; memcpy(o, m, 4); return 4; } /* marker without payload */
+  case 9: { static const uint8_t m[] = {0x21, 0xE4, 0x5A, 0x41, 0x05}; memcpy(o, m, 5); return 5; } /* 7.04 Release with token + Hold-Off option */
+  default: { static const uint8_t m[] = {0x40, 0xE5, 0xFF, 'b', 'y', 'e'}; memcpy(o, m, 6); return 6; } /* 7.05 Abort with diagnostic payload */
   }
 }
 static void
@@ -979,9 +983,10 @@ main(int argc, char **argv) {
              "mutation of 6 lone requests to an idle server (malformed => no handler, <=1 error/RST reply); (C) WebSocket close with a half received "
              "frame and pending bytes, all splits; (D) all sequences of 1..5 (thorough 6) well-formed Block1 and Q-Block1 PUT requests from one raw peer with "
              "block numbers in any order from 0..11 (length 5: 0..8, thorough 0..10; length 6: 0..8), with/without M=0 on the last one, with/without a "
-             "block-size change in the third, against a SINGLE_BODY server: bounds (ASan/UBSan), delivered body complete and correct, canary; (E) after the handshake, all sequences of 2 frames from a 9-frame "
+             "block-size change in the third, against a SINGLE_BODY server: bounds (ASan/UBSan), delivered body complete and correct, canary; (E) after the handshake, all sequences of 2 frames from an 11-frame "
              "catalogue per stream transport (TCP: CSM, GET, 13-form length, empty, ping, extended token, 14-form length announcing bytes that never "
-             "come, TKL 15, marker without payload; WS: CSM, GET in the 7-bit/16-bit/64-bit length forms, empty, ping, longer GET, 1-byte, unmasked) "
+             "come, TKL 15, marker without payload, 7.04 Release with token and option, 7.05 Abort with payload; WS: CSM, GET in the 7-bit/16-bit/"
+             "64-bit length forms, empty, ping, longer GET, 1-byte, unmasked, Release, Abort) "
              "under every segmentation with <= 2 cuts, and of 3 frames with 1 cut (thorough: 2 cuts), each followed by three 1400-byte valid frames in one "
              "piece; distinct = distinct accepted byte strings / mutation descriptors");
   vx_ev_assumption("malformed = rejected by the harness's own RFC 7252 structure parser (wire.h); option-content semantics are not judged");
